@@ -19,7 +19,10 @@ const (
 	phRej2   = 3 // ... parameters applied at handshake completion, UseResetMaps not yet called
 )
 
-const maxStreamCount = int64(1) << 60
+const (
+	maxStreamCount = int64(1) << 60
+	maxStreamID    = int64(1)<<62 - 1 // largest id a varint can carry
+)
 
 // Params of one history.
 type Params struct {
@@ -264,6 +267,11 @@ func (m *model) raise(t int, n int64, e *exp) {
 func (m *model) release(t int, e *exp) {
 	in := m.in[t]
 	in.released++
+	if in.L+in.released > maxStreamCount {
+		// a MAX_STREAMS frame cannot carry more than 2^60 (RFC 9000 s.19.11): nothing further to advertise
+		m.flag("credit-capped")
+		return
+	}
 	in.adv = in.L + in.released
 	e.frames = append(e.frames, fexp{'M', t, in.adv})
 	m.flag("credit-reissued")
@@ -494,7 +502,7 @@ func (m *model) step(op Op, h hint) exp {
 			m.flag("acceptor-cancelled")
 		}
 	case "frame":
-		if !m.framesAllowed() || op.ID < 0 {
+		if !m.framesAllowed() || op.ID < 0 || op.ID > maxStreamID {
 			e.skip = true
 			return e
 		}
@@ -503,6 +511,15 @@ func (m *model) step(op Op, h hint) exp {
 		default:
 			e.skip = true
 			return e
+		}
+		if !idLocal(m.p.Persp, op.ID) {
+			// harness bound: a single frame implicitly opens at most 64 streams (with a configured limit
+			// of 2^60 the implementation would, as specified, create every lower stream)
+			in := m.in[idType(op.ID)]
+			if k := (op.ID - firstIn(m.p.Persp, idType(op.ID))) / 4; k >= in.opened+64 && k+1 <= in.adv {
+				e.skip = true
+				return e
+			}
 		}
 		m.frame(op, &e, false)
 		if e.closeAfter {
